@@ -72,6 +72,14 @@ def geometry_fns(facts):
         # a (rows, cols) pair among the parameters marks a routine of the convolution pipeline (stride / filter / window-count pairs)
         if b.get("impl_self") == ARRAY and b.get("impl_trait_def") is None and any(t == PAIR for t in (b.get("inputs") or [])):
             out.append(b)
+        elif b.get("impl_self") and b.get("impl_self") != ARRAY and any(t == PAIR for t in (b.get("inputs") or [])) and b.get("thir"):
+            # a method of a struct that stores a (rows, cols) pair (a layer's stride): the pair it receives carries the convention
+            try:
+                flds = facts.adt_fields(b["impl_self"]) or []
+            except Exception:
+                flds = []
+            if any(f.get("ty") == PAIR for f in flds):
+                out.append(b)
     return out
 
 
@@ -104,6 +112,15 @@ class AxisTyper:
                     conv_literals.append(("parampat", p["pat"]))
         for b in self.bodies:
             for n in walk(facts.root(b)):
+                if n.get("k") == "Adt" and n.get("adt_local"):
+                    # a pair stored into a field of a crate-local struct keeps the convention (the layer's stride)
+                    for f_ in n.get("fields") or []:
+                        a0 = strip(f_["e"])
+                        if isinstance(a0, dict) and a0.get("ty") in (PAIR, TRIPLE):
+                            if a0.get("k") in ("VarRef", "UpvarRef"):
+                                self.conv_vars.add(a0["v"])
+                            elif a0.get("k") == "Tuple":
+                                conv_literals.append(("lit", a0, b))
                 if n.get("k") == "Call" and (n.get("callee") or {}).get("resolved_local"):
                     for a in n["args"]:
                         a0 = strip(a)
